@@ -753,6 +753,59 @@ theorem loop_scan_tripcount_sound_partial (body : Body)
 
 example : loopRun breakAt2 4 0 true [⟨.f32, [3]⟩] = some ([⟨.f32, [3]⟩], [[⟨.i64, [1]⟩], [⟨.i64, [1]⟩]]) := by decide
 
+/-- An omitted trip count behaves like any trip count the run does not exhaust: whatever a run without
+    `M` produces, the run with `M = fuel` produces too. So every soundness theorem stated for `loopRun`
+    (carried values, body arguments, scan outputs) also covers loops whose trip count is omitted. -/
+theorem loopRunUntil_eq_loopRun (body : Body) : ∀ (f i : Nat) (c : Bool) (vs : List RtVal)
+    (r : List RtVal × List (List RtVal)), loopRunUntil body f i c vs = some r → loopRun body f i c vs = some r := by
+  intro f
+  induction f with
+  | zero =>
+    intro i c vs r h
+    cases c with
+    | false => simpa [loopRunUntil, loopRun] using h
+    | true => simp [loopRunUntil] at h
+  | succ m ih =>
+    intro i c vs r h
+    cases c with
+    | false => simpa [loopRunUntil, loopRun] using h
+    | true =>
+      simp only [loopRunUntil] at h
+      simp only [loopRun]
+      split at h
+      · simp at h
+      · rename_i c' vs' sc hb
+        split at h
+        · simp at h
+        · rename_i fin' scs' hr
+          have := ih (i + 1) c' vs' (fin', scs') hr
+          simp only [this]
+          exact h
+
+/-- Both optional inputs: a run of `Loop` with `M` and / or `cond` omitted is a `loopRun` (with
+    `M := fuel` resp. `c0 := true`). -/
+theorem loopRunOpt_is_loopRun (body : Body) (M : Option Nat) (cond : Option Bool) (fuel : Nat)
+    (vs : List RtVal) (r : List RtVal × List (List RtVal)) (h : loopRunOpt body M cond fuel vs = some r) :
+    loopRun body (M.getD fuel) 0 (cond.getD true) vs = some r := by
+  cases M with
+  | some m => simpa [loopRunOpt] using h
+  | none => exact loopRunUntil_eq_loopRun body fuel 0 (cond.getD true) vs r (by simpa [loopRunOpt] using h)
+
+/-- Scan outputs of a loop WITHOUT a trip count: same reported type, same soundness. -/
+theorem loop_scan_output_sound_noM (a s : List Ty) (body : Body) (cond : Option Bool) (fuel : Nat)
+    (v0 fin : List RtVal) (scs : List (List RtVal)) (j : Nat) (t : Ty) (w : RtVal)
+    (hinit : conformsAll v0 (a.map some) = true)
+    (hbody : ∀ i vs c vs' sc, conformsAll vs (a.map some) = true → body i vs = some (c, vs', sc) →
+        conformsAll sc (s.map some) = true)
+    (hrun : loopRunOpt body none cond fuel v0 = some (fin, scs)) (hj : s[j]? = some t)
+    (hs : stackScan (column scs j) = some w) : conforms w (some (scanTy t)) = true :=
+  loop_scan_output_sound a s body fuel (cond.getD true) v0 fin scs j t w hinit hbody
+    (by simpa using loopRunOpt_is_loopRun body none cond fuel v0 (fin, scs) hrun) hj hs
+
+example : loopRunOpt breakAt2 none none 10 [⟨.f32, [3]⟩] = some ([⟨.f32, [3]⟩], [[⟨.i64, [1]⟩], [⟨.i64, [1]⟩]]) := by decide
+example : loopRunOpt (fun _ vs => some (true, vs, [])) none none 10 [⟨.f32, [3]⟩] = none := by decide
+
+
 /-- No modelled routine turns a non-tensor input into a tensor claim: it raises, or (Binarizer,
     Normalizer) hands the non-tensor type through — for which no runtime value exists. -/
 theorem nonTensor_outcomes_cover :
